@@ -187,6 +187,38 @@ def main():
             except Exception as e:  # noqa
                 direct.append({"law": "a redirection is followed by the dataset's own session", "session": mk.__name__,
                                "error": repr(e)[:300]})
+        # (2f) a server that answers a transient 5xx now and then: whatever the client does next, it does through the session
+        class Flaky:
+            def __init__(self, inner):
+                self.inner, self.n = inner, 0
+
+            def __call__(self, environ, start_response):
+                self.n += 1
+                if self.n % 3 == 2:
+                    start_response("503 Service Unavailable", [("Content-Type", "text/plain"), ("Content-Length", "4")])
+                    return [b"busy"]
+                return self.inner(environ, start_response)
+        for mk in (TR.plain_session, TR.cached_session):
+            sess7, ad7 = mk(Flaky(app))
+            created.clear()
+            outcomes = []
+            for what in ("open", "array", "sequence", "open", "array"):
+                try:
+                    if what == "open":
+                        ds7 = open_url(TR.BASE + "/d", session=sess7, protocol="dap2")
+                    elif what == "array":
+                        np.asarray(ds7["x"].data[0:2, 1:3])
+                    else:
+                        list(ds7["q"].iterdata())
+                    outcomes.append("ok")
+                except Exception as e:  # noqa  (an error is a legitimate answer to a 503; an anonymous retry is not)
+                    outcomes.append(type(e).__name__)
+            r.count(("flaky", mk.__name__))
+            extra = [x for x in created if x is not sess7]
+            if ad7.anonymous or extra:
+                direct.append({"law": "after a transient server error every further request still goes through the dataset's session",
+                               "session": mk.__name__, "outcomes": outcomes, "other_sessions_created": len(extra),
+                               "requests_without_the_session_header": ad7.anonymous[:3]})
         root = D.Node("d4")
         arr = np.arange(6, dtype="i4").reshape(2, 3)
         root.members.append(D.Var("x", "Int32", [("anon", 2), ("anon", 3)], arr))
